@@ -18,6 +18,9 @@ VARIANTS = {
     "src1":   dict(macro="ascent", attrs=[], pack="source", cut=1),
     "src2":   dict(macro="ascent", attrs=[], pack="source", cut=2),
     "srcpar": dict(macro="ascent_par", attrs=[], pack="source", cut=1),
+    # the included source declares every plain relation with a bogus initialiser; the includer re-declares them AFTER the
+    # include (include_source! is textual: the later declaration wins)
+    "srcred": dict(macro="ascent", attrs=[], pack="source", cut=3),
     "srcto":  dict(macro="ascent", attrs=["generate_run_timeout"], timeout=True, pack="source", cut=1),
     "redecl": dict(macro="ascent", attrs=[], pack="redecl"),
     "init":   dict(macro="ascent", attrs=[], pack="init"),
@@ -50,7 +53,7 @@ def variants_for(prog):
             vs += ["topar"]
     vs += sorted(tags & set(VARIANTS) - set(vs))     # explicit variant names as tags
     if "pack" in tags:
-        vs += ["run", "mrt", "gen", "src0", "src1", "src2", "srcto", "redecl", "init"]
+        vs += ["run", "mrt", "gen", "src0", "src1", "src2", "srcto", "srcred", "redecl", "init"]
         if "par" in tags:
             vs += ["runpar", "srcpar"]
     if "perm" in tags:
@@ -156,6 +159,15 @@ def assemble(modname, prog, var, cmap, decls, macros, rules, push_conv):
             cut = v["cut"]
             if cut == 0:      # include first: declarations + macros + first half of the rules come from the source
                 inc, before, after = decls + macros + rules[: n // 2], [], rules[n // 2:]
+            elif cut == 3:    # included: bogus-initialised declarations + macros + first half; re-declared after the include
+                first = []
+                for r, d in zip(rels, decls):
+                    if r["ds"] == "-" and r["kind"] == "rel" and r["cols"]:
+                        bogus = tuple_expr([bogus_val(c, cmap) for c in r["cols"]])
+                        first.append(d[:-1] + f" = [{bogus}].into_iter().collect();")
+                    else:
+                        first.append(d)
+                inc, before, after = first + macros + rules[: n // 2], [], decls + rules[n // 2:]
             elif cut == 1:    # include in the middle
                 inc, before, after = rules[: n // 2], decls + macros, rules[n // 2:]
             else:             # include last
